@@ -7,7 +7,7 @@ CONSTANTS
   FixWalk = TRUE
 INIT TInit
 NEXT TNext
-INVARIANTS ObsShape ObsTotal ObsStartsRan ObsNextLater ObsGrid ObsNoPanic
-PROPERTIES ObsMono ObsStable ObsDelOk ObsDelSeen
+INVARIANTS ObsCurNext ObsCurStart ObsShape ObsTotal ObsStartsRan ObsNextLater ObsGrid ObsNoPanic
+PROPERTIES ObsAnnounced ObsMono ObsStable ObsDelOk ObsDelSeen
 POSTCONDITION Post
 CHECK_DEADLOCK FALSE
